@@ -3,6 +3,7 @@ import Hive.Model.TypedConc
 import Hive.Model.TypedLin
 import Hive.Model.TypedRef
 import Hive.Model.TypedCode
+import Hive.Model.TypedDirty
 import Hive.Gen.C06_Code
 /-!
 # Line-protocol driver state for C06: one `TypedValue[uint64]` (`tv …`), one `TypedValue[*T]` (`tp …`),
@@ -20,6 +21,7 @@ structure DState where
   varKeys : Bool := false    -- `ts keys var`: the TypedStore's key codec is the variable-length `codecVar`
   tvZero : Bool := false     -- `tv values zempty`: the TypedValue's codec is `codec64z` (0 encodes as the empty byte string)
   tsZero : Bool := false     -- `ts values zempty`: the same for the TypedStore's values
+  tvDirty : Bool := false    -- `tv faults dirty`: a failing store write of the harness's store takes effect all the same (`stepD`)
 
 def dinit : DState := { tv := fresh none, ts := [], tp := rinit }
 
@@ -54,9 +56,21 @@ def dstepLine (s : DState) (toks : List String) : DState × String :=
   | ["ts", "keys", fl] => ({ s with varKeys := fl == "var" }, "ok")
   | ["tv", "values", fl] => ({ s with tvZero := fl == "zempty" }, "ok")
   | ["ts", "values", fl] => ({ s with tsZero := fl == "zempty" }, "ok")
+  | ["tv", "faults", fl] => ({ s with tvDirty := fl == "dirty" }, "ok")
   | "tv" :: rest =>
-    let (tv', o) := stepLineBoth s.wrapped (if s.tvZero then codec64z else codec64) s.tv rest
-    ({ s with tv := tv' }, o)
+    let C := if s.tvZero then codec64z else codec64
+    if s.tvDirty then
+      -- over a store with dirty failures only the hand-written model answers (`exec` has atomic store calls)
+      match rest, parseOp rest with
+      | "init" :: _, _ => let (tv', o) := stepLine s.tv rest; ({ s with tv := tv' }, o)
+      | _, some (op, F) =>
+        let r := stepD C s.tv op F
+        let boom := fun (x : String) => if rest.take 2 == ["compute", "boom"] then (x.replace "err:fn" "boom").replace "F!" "F^" else x
+        ({ s with tv := r.st }, boom (showRes r))
+      | _, none => (s, "bad-op")
+    else
+      let (tv', o) := stepLineBoth s.wrapped C s.tv rest
+      ({ s with tv := tv' }, o)
   | "tp" :: rest => let (tp', o) := rstepLine s.tp rest; ({ s with tp := tp' }, o)
   | "ts" :: rest =>
     let (ts', o) := sstepLineK (if s.varKeys then codecVar else codec16) (if s.tsZero then codec64z else codec64) s.ts rest
